@@ -21,7 +21,10 @@ Part 1 (precedence, coercion, unknown names) - for EVERY option of the live DEFA
   * histories in one process: a load that sets the option, then a load without sources must
     give the built-in defaults, must leave DEFAULT_OPTS unchanged and the first object intact;
   * unknown names in file / env / CLI / constructor, among them names of methods and private
-    attributes; `conf` chains (file -> conf, INSIGHTS_CONF); duplicate keys, key letter case.
+    attributes, near-misses of declared options (prefix, `no_` prefix, suffix, other case); the
+    same unknown name in every set of >= 2 channels of ONE object (constructor dict, file,
+    environment, later update), different names per channel, load_all() twice;
+    `conf` chains (file -> conf, INSIGHTS_CONF); duplicate keys, key letter case.
   Oracle: the attribute is the (coerced) value of the highest-priority source that set it
   (CLI > env > file > default), compared type-strictly; a ValueError is accepted only when the
   constructor refuses the very same final value too (an option may refuse a value, e.g.
@@ -263,9 +266,9 @@ class _Sink(object):
         pass
 
 
-def load(conf_path, file_text, env, argv, times=1, extra_files=None, keep=None):
+def load(conf_path, file_text, env, argv, times=1, extra_files=None, keep=None, ctor=None):
     """One real load under controlled argv / environ / file(s). Returns (tag, config-or-message).
-    times=2 calls load_all() twice on the same object."""
+    times=2 calls load_all() twice on the same object; ctor = dict handed to the constructor first."""
     cfgmod = _cfg()
     if file_text is not None:
         with open(conf_path, "w") as fh:
@@ -285,7 +288,7 @@ def load(conf_path, file_text, env, argv, times=1, extra_files=None, keep=None):
         os.environ.update(env)
         sys.stdout = sys.stderr = _Sink()
         try:
-            cfg = cfgmod.InsightsConfig()
+            cfg = cfgmod.InsightsConfig(ctor) if ctor is not None else cfgmod.InsightsConfig()
             for _ in range(times):
                 cfg.load_all()
             return "ok", cfg
@@ -865,6 +868,121 @@ def check_unknown(case, S):
     return out, info
 
 
+# names that look like a declared option: other letter case (exact-key channels only - file and environment fold the
+# case), a prefix of one, one with / without a `no_` prefix, one with a suffix
+NEAR_NAMES = ["off", "obfuscate_host", "no_up", "user", "no_register", "no_offline", "no_auto_update", "upload",
+              "gpg_", "offline_", "retries2", "no_no_upload"]
+CASE_NAMES = ["Offline", "OFFLINE", "Username", "No_Upload"]
+CHANNELS = ("ctor", "file", "env", "update")
+
+
+def _chan_ok(name, ch):
+    if ch == "file" and not name:
+        return False
+    if name in CASE_NAMES and ch in ("file", "env"):
+        return False                      # there it IS the declared option
+    return True
+
+
+def gen_unknown_multi():
+    """The same unknown name in every set of two or more channels of ONE configuration object (constructor dict,
+    file, environment, a later update), different names per channel, every single channel with load_all() twice;
+    a declared option next to them in file and environment."""
+    import itertools
+    cases = []
+    names = UNKNOWN_NAMES + NEAR_NAMES + CASE_NAMES
+    for i, n in enumerate(names):
+        for k in (1, 2, 3, 4):
+            for chans in itertools.combinations(CHANNELS, k):
+                if not all(_chan_ok(n, c) for c in chans):
+                    continue
+                for reload in (False, True):
+                    if k == 1 and (not reload or chans[0] in ("update",)):
+                        continue          # single channel, single load: the `unknown` cases above
+                    cases.append({"kind": "unk2", "names": dict((c, [n]) for c in chans), "reload": reload})
+        # different names in two channels (the neighbour in the list), both orders of the pair
+        m = names[(i + 1) % len(names)]
+        for a, b in itertools.permutations(CHANNELS, 2):
+            if _chan_ok(n, a) and _chan_ok(m, b):
+                cases.append({"kind": "unk2", "names": {a: [n], b: [m]}, "reload": False})
+    every = dict((c, [n for n in names if _chan_ok(n, c)]) for c in CHANNELS)
+    cases.append({"kind": "unk2", "names": every, "reload": False})
+    cases.append({"kind": "unk2", "names": every, "reload": True})
+    return cases
+
+
+def judge_unknown(got, base, names, feats, S):
+    """After loading, no injected unknown name is an attribute / listed as a setting; methods and bookkeeping intact."""
+    cfgmod = _cfg()
+    out = structural(got, S)
+    inst = vars(got)
+    legit = baseline_attrs(S)
+    try:
+        listing = str(got)
+    except Exception as ex:
+        listing = ""
+        out.append(("load:crash", "str(config) works", "%s: %s" % (type(ex).__name__, str(ex)[:100]), feats))
+    for n in names:
+        v = inst.get(n)
+        if n in inst and (n not in legit or (isinstance(v, str) and v.startswith(MARK))):
+            out.append(("unknown:becomes-setting", "%r ignored" % n, "%s=%r" % (n, v), dict(feats, hit=n)))
+        gv = getattr(got, n, None) if n.isidentifier() else None
+        if isinstance(gv, str) and gv.startswith(MARK):
+            out.append(("unknown:readable-as-attribute", "%r ignored" % n, "%s=%r" % (n, gv), dict(feats, hit=n)))
+        if n and ("\n    %s: %s" % (n, MARK) in "\n" + listing or listing.startswith("    %s: %s" % (n, MARK))):
+            out.append(("unknown:listed-as-setting", "%r not in str(config)" % n, "listed", dict(feats, hit=n)))
+    for n in dir(cfgmod.InsightsConfig):
+        cv = getattr(cfgmod.InsightsConfig, n)
+        if callable(cv) and not n.startswith("__"):
+            iv = getattr(got, n)
+            if not callable(iv) or getattr(iv, "__func__", None) is not cv:
+                out.append(("unknown:method-clobbered", "bound method %s" % n, repr(iv)[:80], dict(feats, hit=n)))
+    if base is not None:
+        for k, bv in vars(base).items():
+            if k.startswith("_") and k in inst and type(inst[k]) is not type(bv):
+                out.append(("unknown:private-attribute-overwritten", "%s stays a %s" % (k, type(bv).__name__),
+                            repr(inst[k])[:60], dict(feats, hit=k)))
+    return out
+
+
+def check_unknown_multi(case, S):
+    conf = os.path.join(S, "c.conf")
+    nm = case["names"]
+    chans = [c for c in CHANNELS if c in nm]
+    feats = {"channels": "+".join(chans), "reload": bool(case.get("reload")),
+             "same_name": len(set(tuple(v) for v in nm.values())) == 1}
+    lines, env, argv = ["[%s]" % CURRENT, "username=f.username"], {}, ["--conf", conf]
+    lines += ["%s=%s-file" % (n, MARK) for n in nm.get("file", [])]
+    want_user = "f.username"
+    if "env" in nm:
+        env = dict((env_key(n), MARK + "-env") for n in nm["env"])
+        env[env_key("username")] = "e.username"
+        want_user = "e.username"
+    ctor = dict((n, MARK + "-ctor") for n in nm["ctor"]) if "ctor" in nm else None
+    btag, base = load(conf, "[%s]\nusername=f.username\n" % CURRENT, {}, ["--conf", conf])
+    tag, got = load(conf, "\n".join(lines) + "\n", env, argv, times=2 if case.get("reload") else 1, ctor=ctor)
+    if tag == "ok" and "update" in nm:
+        upd = getattr(got, "_update_dict", None)       # not public: exercised only while it exists
+        if upd is not None:
+            try:
+                for _ in range(2 if case.get("reload") else 1):
+                    upd(dict((n, MARK + "-update") for n in nm["update"]))
+            except Exception as ex:
+                tag, got = "crash", "%s: %s" % (type(ex).__name__, str(ex)[:200])
+    info = {"nontrivial": tag == "ok" and (len(chans) > 1 or bool(case.get("reload"))), "tag": tag,
+            "outcome": "unk2:%s:%s:%s" % ("+".join(chans), bool(case.get("reload")), tag)}
+    if tag == "crash":
+        return [("load:crash", "a configuration or a rejection", got, feats)], info
+    if tag != "ok":
+        return [], info       # refusing the load is also "never a setting" (the unchanged tree never refuses)
+    every = sorted(set(n for v in nm.values() for n in v))
+    out = judge_unknown(got, base if btag == "ok" else None, every, feats, S)
+    if not same(getattr(got, "username", None), want_user):
+        out.append(("precedence:highest-source-wins", "username=%r next to the unknown names" % want_user,
+                    repr(getattr(got, "username", None)), dict(feats, opt="username")))
+    return out, info
+
+
 # ---- part 1: conf chains, duplicate keys, letter case (mostly lenient) ----------------------
 
 def gen_misc():
@@ -1179,6 +1297,8 @@ def check_case(case, S):
         return check_prec(case, S)
     if k == "unknown":
         return check_unknown(case, S)
+    if k == "unk2":
+        return check_unknown_multi(case, S)
     if k in ("impl", "ctor"):
         return check_impl(case, S)
     if k == "hist":
@@ -1198,6 +1318,7 @@ def units(tier, seed):
     names = sorted(meta())
     us = [{"part": "prec", "opts": ch} for ch in enumx.chunks(names, 41)]
     us.append({"part": "unknown"})
+    us += [{"part": "unk2", "shard": i, "of": 6} for i in range(6)]
     us.append({"part": "misc"})
     us += _range_units("impl", 1 << len(QC), 512, space="QC", where="A")
     us += _range_units("impl", 1 << len(QC), 512, space="QC", where="B")
@@ -1231,6 +1352,9 @@ def unit_cases(unit, tier):
                 yield c
     elif part == "unknown":
         for c in gen_unknown():
+            yield c
+    elif part == "unk2":
+        for c in enumx.shard(gen_unknown_multi(), unit["shard"], unit["of"]):
             yield c
     elif part == "misc":
         for c in gen_misc():
